@@ -68,7 +68,7 @@ class Grammar(qc.QGrammar):
     def compile(self, recipe, kind="F1", cpu=0, tier="quick"):
         h, threads = recipe[0], recipe[1]
         P = IOProgram()
-        qc.perturbation_cfg(P, h, kind, cpu)
+        qc.perturbation_cfg(P, h, kind, cpu, eintr=False)
         P.cfg["hqconc"] = h[10] % 2
         P.cfg["inject"] = [0, 0, 50, 200, 500][h[22] % 5]       # short counts / EINTR injected into the library's read/write calls on the channel fds
         if P.cfg["inject"]:
